@@ -53,7 +53,12 @@ Clauses of the statement and where they are proved, for every tree / every numbe
      `gen_pick_strict`, `gen_upNewDist`, `gen_upJoin_sub`, `gen_upJoin_h` — the model's NJ / UPGMA formulas equal the kernels
      regenerated from the source (`Gen/C14Kernels.lean`).  `nj_run_states`, `nj_states_inv`, `up_run_states`: the traced loop states
      (ops `njtrace` / `uptrace`) are the states of the runs the theorems speak about.
-     Missing: uniqueness of the tree realising an additive metric (from "the same path lengths" to "the same unrooted topology").
+     Wave 3: `NT.Sub` (a subtree hanging by an edge), `tree_edge_separates` / `tree_edge_separates_strict` /
+     `tree_root_edge_separates` (every edge of a tree with non-negative lengths separates the leaves below it from those beyond it in
+     the path lengths, with the edge length as margin: the "only if" half of the split characterisation of a tree metric),
+     `nj_result_separates_source_edges` (in the tree NJ returns, every edge of the source tree is metrically visible with its length).
+     Missing: the "if" half (a bipartition separated in the path lengths is an edge of the tree) and with it uniqueness of the tree
+     realising an additive metric (from "the same path lengths" to "the same unrooted split set with the same lengths").
  Bridge to the driver's number type: `toRat` is a homomorphism on fractions with non-zero denominator (`Aux.toRat_*`), the
  models are natural in the number type (`Aux.entries_nat`, `Aux.nj_run_rel`, `Aux.up_run_rel`), hence the statements at
  `Frac`: `frac_pdm_spec`, `frac_pdm_lookup_spec`, `frac_nj_rowsum_invariant`, `frac_nj_tree`, `frac_upgma_tree`. -/
@@ -5424,5 +5429,281 @@ theorem up_run_states : ∀ (fuel : Nat) (s : UP α), upRun fuel s = ((upStates 
         | some b => simp [hgl]
     · simp
 end states
+
+/-! ## wave 3: every edge of a tree is visible in its path lengths (one half of the split characterisation of a tree metric) -/
+section splits
+variable {α : Type} [Field α] [LinearOrder α] [IsStrictOrderedRing α]
+
+/-- `u` is a proper subtree of `t`, hanging by an edge of length `e` -/
+inductive NT.Sub : NT α → α → NT α → Prop
+  | left (f : NT α) (lf : α) (g : NT α) (lg : α) : NT.Sub f lf (.node f lf g lg)
+  | right (f : NT α) (lf : α) (g : NT α) (lg : α) : NT.Sub g lg (.node f lf g lg)
+  | inl {u : NT α} {e : α} (f : NT α) (lf : α) (g : NT α) (lg : α) : NT.Sub u e f → NT.Sub u e (.node f lf g lg)
+  | inr {u : NT α} {e : α} (f : NT α) (lf : α) (g : NT α) (lg : α) : NT.Sub u e g → NT.Sub u e (.node f lf g lg)
+
+namespace Aux
+theorem sub_mem {u t : NT α} {e : α} (h : NT.Sub u e t) : ∀ a ∈ NT.leafIds u, a ∈ NT.leafIds t := by
+  induction h with
+  | left f lf g lg => intro a ha; simp [NT.leafIds, ha]
+  | right f lf g lg => intro a ha; simp [NT.leafIds, ha]
+  | inl f lf g lg _ ih => intro a ha; simp [NT.leafIds, ih a ha]
+  | inr f lf g lg _ ih => intro a ha; simp [NT.leafIds, ih a ha]
+
+theorem sub_nonneg {u t : NT α} {e : α} (h : NT.Sub u e t) : NT.Nonneg t → NT.Nonneg u ∧ 0 ≤ e := by
+  induction h with
+  | left f lf g lg => intro hn; exact ⟨hn.1, hn.2.2.1⟩
+  | right f lf g lg => intro hn; exact ⟨hn.2.1, hn.2.2.2⟩
+  | inl f lf g lg _ ih => intro hn; exact ih hn.1
+  | inr f lf g lg _ ih => intro hn; exact ih hn.2.1
+
+theorem sub_nodup {u t : NT α} {e : α} (h : NT.Sub u e t) : (NT.leafIds t).Nodup → (NT.leafIds u).Nodup := by
+  induction h with
+  | left f lf g lg => intro hn; simp only [NT.leafIds] at hn; exact (List.nodup_append.mp hn).1
+  | right f lf g lg => intro hn; simp only [NT.leafIds] at hn; exact (List.nodup_append.mp hn).2.1
+  | inl f lf g lg _ ih => intro hn; simp only [NT.leafIds] at hn; exact ih (List.nodup_append.mp hn).1
+  | inr f lf g lg _ ih => intro hn; simp only [NT.leafIds] at hn; exact ih (List.nodup_append.mp hn).2.1
+
+theorem dmat_symm (t : NT α) (i j : Nat) : NT.dmat t i j = NT.dmat t j i := by
+  simp only [NT.dmat, dist_symm t i j]
+
+/-- what an edge looks like from the leaves: the leaves below it are further from the root by `σ`, every leaf `b` beyond it is at
+`ρ b` from its lower end, and two leaves beyond it never use it -/
+theorem sub_profile {u t : NT α} {e : α} (h : NT.Sub u e t) : NT.Nonneg t → (NT.leafIds t).Nodup →
+    ∃ (σ : α) (ρ : Nat → α), e ≤ σ ∧
+      (∀ a ∈ NT.leafIds u, NT.dep t a = NT.dep u a + σ) ∧
+      (∀ b ∈ NT.leafIds t, b ∉ NT.leafIds u → e ≤ ρ b ∧ NT.dep t b + 2 * e ≤ ρ b + σ) ∧
+      (∀ a ∈ NT.leafIds u, ∀ b ∈ NT.leafIds t, b ∉ NT.leafIds u → NT.dmat t a b = NT.dep u a + ρ b) ∧
+      (∀ b ∈ NT.leafIds t, b ∉ NT.leafIds u → ∀ b' ∈ NT.leafIds t, b' ∉ NT.leafIds u → b ≠ b' → NT.dmat t b b' + 2 * e ≤ ρ b + ρ b') ∧
+      (∀ a ∈ NT.leafIds u, ∀ a' ∈ NT.leafIds u, NT.dmat t a a' = NT.dmat u a a') := by
+  induction h with
+  | left f lf g lg =>
+    intro hn hnd
+    simp only [NT.leafIds] at hnd
+    have hnd' := List.nodup_append.mp hnd
+    have hdis : ∀ a ∈ NT.leafIds f, a ∉ NT.leafIds g := fun a ha hb => hnd'.2.2 a ha a hb rfl
+    have ing : ∀ b ∈ NT.leafIds (NT.node f lf g lg), b ∉ NT.leafIds f → b ∈ NT.leafIds g := by
+      intro b hb hbf; simp only [NT.leafIds, List.mem_append] at hb; exact hb.resolve_left hbf
+    refine ⟨lf, fun b => NT.dep g b + lg + lf, le_refl _, fun a ha => dep_left f g lf lg a ha, ?_, ?_, ?_, fun a ha a' ha' => dmat_left f g lf lg a a' ha ha'⟩
+    · intro b hb hbf
+      have := dep_nonneg g hn.2.1 b
+      rw [dep_right f g lf lg b (ing b hb hbf) hbf]
+      exact ⟨by linarith [hn.2.2.2], by linarith⟩
+    · intro a ha b hb hbf
+      rw [(dmat_cross f g lf lg a b ha (ing b hb hbf) (hdis a ha) hbf).1]; ring
+    · intro b hb hbf b' hb' hbf' hne
+      rw [dmat_right f g lf lg b b' hbf hbf']
+      have := dmat_le_dep g hn.2.1 hnd'.2.1 b (ing b hb hbf) b' (ing b' hb' hbf') hne
+      linarith [hn.2.2.2]
+  | right f lf g lg =>
+    intro hn hnd
+    simp only [NT.leafIds] at hnd
+    have hnd' := List.nodup_append.mp hnd
+    have hdis : ∀ a ∈ NT.leafIds f, a ∉ NT.leafIds g := fun a ha hb => hnd'.2.2 a ha a hb rfl
+    have hdis' : ∀ a ∈ NT.leafIds g, a ∉ NT.leafIds f := fun a ha hb => hdis a hb ha
+    have inf : ∀ b ∈ NT.leafIds (NT.node f lf g lg), b ∉ NT.leafIds g → b ∈ NT.leafIds f := by
+      intro b hb hbg; simp only [NT.leafIds, List.mem_append] at hb; exact hb.resolve_right hbg
+    refine ⟨lg, fun b => NT.dep f b + lf + lg, le_refl _, fun a ha => dep_right f g lf lg a ha (hdis' a ha), ?_, ?_, ?_,
+      fun a ha a' ha' => dmat_right f g lf lg a a' (hdis' a ha) (hdis' a' ha')⟩
+    · intro b hb hbg
+      have := dep_nonneg f hn.1 b
+      rw [dep_left f g lf lg b (inf b hb hbg)]
+      exact ⟨by linarith [hn.2.2.1], by linarith⟩
+    · intro a ha b hb hbg
+      rw [(dmat_cross f g lf lg b a (inf b hb hbg) ha hbg (hdis' a ha)).2]; ring
+    · intro b hb hbg b' hb' hbg' hne
+      rw [dmat_left f g lf lg b b' (inf b hb hbg) (inf b' hb' hbg')]
+      have := dmat_le_dep f hn.1 hnd'.1 b (inf b hb hbg) b' (inf b' hb' hbg') hne
+      linarith [hn.2.2.1]
+  | @inl u e f lf g lg hs ih =>
+    intro hn hnd
+    simp only [NT.leafIds] at hnd
+    have hnd' := List.nodup_append.mp hnd
+    have hdis : ∀ a ∈ NT.leafIds f, a ∉ NT.leafIds g := fun a ha hb => hnd'.2.2 a ha a hb rfl
+    have hdis' : ∀ a ∈ NT.leafIds g, a ∉ NT.leafIds f := fun a ha hb => hdis a hb ha
+    obtain ⟨σ, ρ, hσ, hA, hB, hC, hD, hE⟩ := ih hn.1 hnd'.1
+    have uf := sub_mem hs
+    have he := (sub_nonneg hs hn.1).2
+    have ing : ∀ b ∈ NT.leafIds (NT.node f lf g lg), b ∉ NT.leafIds f → b ∈ NT.leafIds g := by
+      intro b hb hbf; simp only [NT.leafIds, List.mem_append] at hb; exact hb.resolve_left hbf
+    have lf0 := hn.2.2.1; have lg0 := hn.2.2.2
+    refine ⟨σ + lf, fun b => if b ∈ NT.leafIds f then ρ b else σ + lf + lg + NT.dep g b, by linarith, ?_, ?_, ?_, ?_, ?_⟩
+    · intro a ha; rw [dep_left f g lf lg a (uf a ha), hA a ha]; ring
+    · intro b hb hbu
+      by_cases hbf : b ∈ NT.leafIds f
+      · simp only [hbf, if_true]
+        have := hB b hbf hbu
+        rw [dep_left f g lf lg b hbf]
+        exact ⟨this.1, by linarith⟩
+      · simp only [hbf, if_false]
+        have := dep_nonneg g hn.2.1 b
+        rw [dep_right f g lf lg b (ing b hb hbf) hbf]
+        exact ⟨by linarith, by linarith⟩
+    · intro a ha b hb hbu
+      by_cases hbf : b ∈ NT.leafIds f
+      · simp only [hbf, if_true]
+        rw [dmat_left f g lf lg a b (uf a ha) hbf]; exact hC a ha b hbf hbu
+      · simp only [hbf, if_false]
+        rw [(dmat_cross f g lf lg a b (uf a ha) (ing b hb hbf) (hdis a (uf a ha)) hbf).1, hA a ha]; ring
+    · intro b hb hbu b' hb' hbu' hne
+      by_cases hbf : b ∈ NT.leafIds f <;> by_cases hbf' : b' ∈ NT.leafIds f
+      · simp only [hbf, hbf', if_true]
+        rw [dmat_left f g lf lg b b' hbf hbf']; exact hD b hbf hbu b' hbf' hbu' hne
+      · simp only [hbf, hbf', if_true, if_false]
+        rw [(dmat_cross f g lf lg b b' hbf (ing b' hb' hbf') (hdis b hbf) hbf').1]
+        have := (hB b hbf hbu).2
+        linarith
+      · simp only [hbf, hbf', if_true, if_false]
+        rw [(dmat_cross f g lf lg b' b hbf' (ing b hb hbf) (hdis b' hbf') hbf).2]
+        have := (hB b' hbf' hbu').2
+        linarith
+      · simp only [hbf, hbf', if_false]
+        rw [dmat_right f g lf lg b b' hbf hbf']
+        have := dmat_le_dep g hn.2.1 hnd'.2.1 b (ing b hb hbf) b' (ing b' hb' hbf') hne
+        linarith
+    · intro a ha a' ha'
+      rw [dmat_left f g lf lg a a' (uf a ha) (uf a' ha')]; exact hE a ha a' ha'
+  | @inr u e f lf g lg hs ih =>
+    intro hn hnd
+    simp only [NT.leafIds] at hnd
+    have hnd' := List.nodup_append.mp hnd
+    have hdis : ∀ a ∈ NT.leafIds f, a ∉ NT.leafIds g := fun a ha hb => hnd'.2.2 a ha a hb rfl
+    have hdis' : ∀ a ∈ NT.leafIds g, a ∉ NT.leafIds f := fun a ha hb => hdis a hb ha
+    obtain ⟨σ, ρ, hσ, hA, hB, hC, hD, hE⟩ := ih hn.2.1 hnd'.2.1
+    have ug := sub_mem hs
+    have he := (sub_nonneg hs hn.2.1).2
+    have inf : ∀ b ∈ NT.leafIds (NT.node f lf g lg), b ∉ NT.leafIds g → b ∈ NT.leafIds f := by
+      intro b hb hbg; simp only [NT.leafIds, List.mem_append] at hb; exact hb.resolve_right hbg
+    have lf0 := hn.2.2.1; have lg0 := hn.2.2.2
+    refine ⟨σ + lg, fun b => if b ∈ NT.leafIds g then ρ b else σ + lg + lf + NT.dep f b, by linarith, ?_, ?_, ?_, ?_, ?_⟩
+    · intro a ha; rw [dep_right f g lf lg a (ug a ha) (hdis' a (ug a ha)), hA a ha]; ring
+    · intro b hb hbu
+      by_cases hbg : b ∈ NT.leafIds g
+      · simp only [hbg, if_true]
+        have := hB b hbg hbu
+        rw [dep_right f g lf lg b hbg (hdis' b hbg)]
+        exact ⟨this.1, by linarith⟩
+      · simp only [hbg, if_false]
+        have := dep_nonneg f hn.1 b
+        rw [dep_left f g lf lg b (inf b hb hbg)]
+        exact ⟨by linarith, by linarith⟩
+    · intro a ha b hb hbu
+      by_cases hbg : b ∈ NT.leafIds g
+      · simp only [hbg, if_true]
+        rw [dmat_right f g lf lg a b (hdis' a (ug a ha)) (hdis' b hbg)]; exact hC a ha b hbg hbu
+      · simp only [hbg, if_false]
+        rw [(dmat_cross f g lf lg b a (inf b hb hbg) (ug a ha) hbg (hdis' a (ug a ha))).2, hA a ha]; ring
+    · intro b hb hbu b' hb' hbu' hne
+      by_cases hbg : b ∈ NT.leafIds g <;> by_cases hbg' : b' ∈ NT.leafIds g
+      · simp only [hbg, hbg', if_true]
+        rw [dmat_right f g lf lg b b' (hdis' b hbg) (hdis' b' hbg')]; exact hD b hbg hbu b' hbg' hbu' hne
+      · simp only [hbg, hbg', if_true, if_false]
+        rw [(dmat_cross f g lf lg b' b (inf b' hb' hbg') hbg hbg' (hdis' b hbg)).2]
+        have := (hB b hbg hbu).2
+        linarith
+      · simp only [hbg, hbg', if_true, if_false]
+        rw [(dmat_cross f g lf lg b b' (inf b hb hbg) hbg' hbg (hdis' b' hbg')).1]
+        have := (hB b' hbg' hbu').2
+        linarith
+      · simp only [hbg, hbg', if_false]
+        rw [dmat_left f g lf lg b b' (inf b hb hbg) (inf b' hb' hbg')]
+        have := dmat_le_dep f hn.1 hnd'.1 b (inf b hb hbg) b' (inf b' hb' hbg') hne
+        linarith
+    · intro a ha a' ha'
+      rw [dmat_right f g lf lg a a' (hdis' a (ug a ha)) (hdis' a' (ug a' ha'))]; exact hE a ha a' ha'
+end Aux
+
+/-- (d) `tree_edge_separates` — one half of the split characterisation of a tree metric (Buneman): every edge of a tree with
+non-negative edge lengths separates the leaves metrically, with the edge length as margin.  If `u` hangs in `t` by an edge of length
+`e`, then for all leaves `a, a'` below the edge and `b, b'` beyond it `d(a,a') + d(b,b') + 2e ≤ d(a,b) + d(a',b')`; for a positive
+edge the inequality is strict (`tree_edge_separates_strict`): the split `leaves u | rest` is visible in the distances alone. -/
+theorem tree_edge_separates {u t : NT α} {e : α} (h : NT.Sub u e t) (hn : NT.Nonneg t) (hnd : (NT.leafIds t).Nodup)
+    (a a' b b' : Nat) (ha : a ∈ NT.leafIds u) (ha' : a' ∈ NT.leafIds u)
+    (hb : b ∈ NT.leafIds t) (hbu : b ∉ NT.leafIds u) (hb' : b' ∈ NT.leafIds t) (hbu' : b' ∉ NT.leafIds u) :
+    NT.dmat t a a' + NT.dmat t b b' + 2 * e ≤ NT.dmat t a b + NT.dmat t a' b' := by
+  obtain ⟨σ, ρ, hσ, hA, hB, hC, hD, hE⟩ := sub_profile h hn hnd
+  have hnu := (sub_nonneg h hn).1
+  have hndu := sub_nodup h hnd
+  have h1 : NT.dmat t a a' ≤ NT.dep u a + NT.dep u a' := by
+    rw [hE a ha a' ha']
+    by_cases e1 : a = a'
+    · subst e1
+      have := dep_nonneg u hnu a
+      simp only [NT.dmat, dmat_diag u a]; linarith
+    · exact dmat_le_dep u hnu hndu a ha a' ha' e1
+  have h2 : NT.dmat t b b' + 2 * e ≤ ρ b + ρ b' := by
+    by_cases e2 : b = b'
+    · subst e2
+      have := (hB b hb hbu).1
+      simp only [NT.dmat, dmat_diag t b]; linarith
+    · exact hD b hb hbu b' hb' hbu' e2
+  rw [hC a ha b hb hbu, hC a' ha' b' hb' hbu']
+  linarith
+
+theorem tree_edge_separates_strict {u t : NT α} {e : α} (h : NT.Sub u e t) (hn : NT.Nonneg t) (hnd : (NT.leafIds t).Nodup) (he : 0 < e)
+    (a a' b b' : Nat) (ha : a ∈ NT.leafIds u) (ha' : a' ∈ NT.leafIds u)
+    (hb : b ∈ NT.leafIds t) (hbu : b ∉ NT.leafIds u) (hb' : b' ∈ NT.leafIds t) (hbu' : b' ∉ NT.leafIds u) :
+    NT.dmat t a a' + NT.dmat t b b' < NT.dmat t a b + NT.dmat t a' b' := by
+  have := tree_edge_separates h hn hnd a a' b b' ha ha' hb hbu hb' hbu'
+  linarith
+
+/-- (d) `tree_root_edge_separates` — the same for the edge the root sits on (a result tree read as an unrooted tree: the two edges
+at the root are one edge of length `lf + lg`) -/
+theorem tree_root_edge_separates (f g : NT α) (lf lg : α) (hn : NT.Nonneg (.node f lf g lg))
+    (hnd : (NT.leafIds (.node f lf g lg)).Nodup) (a a' b b' : Nat)
+    (ha : a ∈ NT.leafIds f) (ha' : a' ∈ NT.leafIds f) (hb : b ∈ NT.leafIds g) (hb' : b' ∈ NT.leafIds g) :
+    NT.dmat (.node f lf g lg) a a' + NT.dmat (.node f lf g lg) b b' + 2 * (lf + lg) ≤
+      NT.dmat (.node f lf g lg) a b + NT.dmat (.node f lf g lg) a' b' := by
+  simp only [NT.leafIds] at hnd
+  have hnd' := List.nodup_append.mp hnd
+  have hdis : ∀ x ∈ NT.leafIds f, x ∉ NT.leafIds g := fun x hx hy => hnd'.2.2 x hx x hy rfl
+  have hdis' : ∀ x ∈ NT.leafIds g, x ∉ NT.leafIds f := fun x hx hy => hdis x hy hx
+  rw [dmat_left f g lf lg a a' ha ha', dmat_right f g lf lg b b' (hdis' b hb) (hdis' b' hb'),
+    (dmat_cross f g lf lg a b ha hb (hdis a ha) (hdis' b hb)).1, (dmat_cross f g lf lg a' b' ha' hb' (hdis a' ha') (hdis' b' hb')).1]
+  have h1 : NT.dmat f a a' ≤ NT.dep f a + NT.dep f a' := by
+    by_cases e1 : a = a'
+    · subst e1
+      have := dep_nonneg f hn.1 a
+      simp only [NT.dmat, dmat_diag f a]; linarith
+    · exact dmat_le_dep f hn.1 hnd'.1 a ha a' ha' e1
+  have h2 : NT.dmat g b b' ≤ NT.dep g b + NT.dep g b' := by
+    by_cases e2 : b = b'
+    · subst e2
+      have := dep_nonneg g hn.2.1 b
+      simp only [NT.dmat, dmat_diag g b]; linarith
+    · exact dmat_le_dep g hn.2.1 hnd'.2.1 b hb b' hb' e2
+  linarith
+end splits
+
+/-- non-vacuity: in ((0:1,1:2):1/2,(2:3,3:1):2) the cherry (0,1) hangs by an edge of length 1/2 -/
+example := tree_edge_separates_strict (α := ℚ)
+  (NT.Sub.left (.node (.leaf 0) 1 (.leaf 1) 2) (1/2) (.node (.leaf 2) 3 (.leaf 3) 1) 2)
+  (by simp [NT.Nonneg]) (by decide) (by norm_num) 0 1 2 3 (by simp [NT.leafIds]) (by simp [NT.leafIds])
+  (by simp [NT.leafIds]) (by simp [NT.leafIds]) (by simp [NT.leafIds]) (by simp [NT.leafIds])
+section njsplits
+variable {α : Type} [Field α] [LinearOrder α] [IsStrictOrderedRing α] [CharZero α]
+
+/-- (d) `nj_result_separates_source_edges` — towards "NJ returns THAT tree": in the tree `nj_tree` returns for the path lengths of
+`src` (any number of taxa), every edge of `src` is still visible with its full length: the leaves below an edge of length `e` of `src`
+and the leaves beyond it are separated in the RESULT's path lengths with margin `2e` (`nj_inverts_tree` + `tree_edge_separates`).
+What is missing for equality of the unrooted split sets is the converse (a metrically separated bipartition is an edge of the tree). -/
+theorem nj_result_separates_source_edges (n : Nat) (src : NT α) (hnn : NT.Nonneg src) (hp : NT.PosInternal src)
+    (hnd : (NT.leafIds src).Nodup) (hl : (NT.leafIds src).Perm (List.range n)) {u : NT α} {e : α} (hs : NT.Sub u e src) :
+    ∃ r, njTree n (NT.dmat src) = some r ∧ (NT.leafIds r).Perm (List.range n) ∧
+      ∀ a ∈ NT.leafIds u, ∀ a' ∈ NT.leafIds u, ∀ b ∈ NT.leafIds src, b ∉ NT.leafIds u → ∀ b' ∈ NT.leafIds src, b' ∉ NT.leafIds u →
+        NT.dmat r a a' + NT.dmat r b b' + 2 * e ≤ NT.dmat r a b + NT.dmat r a' b' := by
+  obtain ⟨r, hr, hperm, hd⟩ := nj_inverts_tree n src hnn hp hnd hl
+  refine ⟨r, hr, hperm, ?_⟩
+  have lt : ∀ x ∈ NT.leafIds src, x < n := fun x hx => List.mem_range.mp (hl.mem_iff.mp hx)
+  have eq : ∀ x ∈ NT.leafIds src, ∀ y ∈ NT.leafIds src, NT.dmat r x y = NT.dmat src x y := by
+    intro x hx y hy
+    by_cases exy : x = y
+    · subst exy; simp only [NT.dmat, dmat_diag r x, dmat_diag src x]
+    · simp only [NT.dmat, hd x (lt x hx) y (lt y hy) exy]
+  intro a ha a' ha' b hb hbu b' hb' hbu'
+  have ma := sub_mem hs a ha; have ma' := sub_mem hs a' ha'
+  rw [eq a ma a' ma', eq b hb b' hb', eq a ma b hb, eq a' ma' b' hb']
+  exact tree_edge_separates hs hnn hnd a a' b b' ha ha' hb hbu hb' hbu'
+end njsplits
+
 
 end DendroModel.C14
